@@ -74,11 +74,11 @@ type StreamConn struct {
 	SplitHintBA func(inflight []byte) []int
 
 	// Fault switches (set by the engine from the plan).
-	AllowCut     bool // connection reset at an arbitrary instant
-	AllowCorrupt bool // bit flip in the in-flight bytes (AB direction only unless CorruptBA)
-	CorruptBA    bool
+	AllowCut      bool // connection reset at an arbitrary instant
+	AllowCorrupt  bool // bit flip in the in-flight bytes (AB direction only unless CorruptBA)
+	CorruptBA     bool
 	DeliverWeight int
-	cut          bool
+	cut           bool
 }
 
 func NewStreamConn(sim *Sim, name string) *StreamConn {
@@ -109,14 +109,30 @@ func (c *StreamConn) BoundAB(n int) { c.ab.bound = n }
 func (c *StreamConn) BoundBA(n int) { c.ba.bound = n }
 
 // DeliveredAB is the number of bytes written by A that have been delivered to B.
-func (c *StreamConn) DeliveredAB() int64 { c.ab.mu.Lock(); defer c.ab.mu.Unlock(); return c.ab.Delivered }
-func (c *StreamConn) DeliveredBA() int64 { c.ba.mu.Lock(); defer c.ba.mu.Unlock(); return c.ba.Delivered }
-func (c *StreamConn) WrittenAB() int64   { c.ab.mu.Lock(); defer c.ab.mu.Unlock(); return c.ab.Written }
-func (c *StreamConn) WrittenBA() int64   { c.ba.mu.Lock(); defer c.ba.mu.Unlock(); return c.ba.Written }
+func (c *StreamConn) DeliveredAB() int64 {
+	c.ab.mu.Lock()
+	defer c.ab.mu.Unlock()
+	return c.ab.Delivered
+}
+func (c *StreamConn) DeliveredBA() int64 {
+	c.ba.mu.Lock()
+	defer c.ba.mu.Unlock()
+	return c.ba.Delivered
+}
+func (c *StreamConn) WrittenAB() int64 { c.ab.mu.Lock(); defer c.ab.mu.Unlock(); return c.ab.Written }
+func (c *StreamConn) WrittenBA() int64 { c.ba.mu.Lock(); defer c.ba.mu.Unlock(); return c.ba.Written }
 
 // InflightAB returns the number of undelivered bytes A -> B.
-func (c *StreamConn) InflightAB() int { c.ab.mu.Lock(); defer c.ab.mu.Unlock(); return len(c.ab.inflight) }
-func (c *StreamConn) InflightBA() int { c.ba.mu.Lock(); defer c.ba.mu.Unlock(); return len(c.ba.inflight) }
+func (c *StreamConn) InflightAB() int {
+	c.ab.mu.Lock()
+	defer c.ab.mu.Unlock()
+	return len(c.ab.inflight)
+}
+func (c *StreamConn) InflightBA() int {
+	c.ba.mu.Lock()
+	defer c.ba.mu.Unlock()
+	return len(c.ba.inflight)
+}
 
 // StallAB stops/resumes delivery A -> B (a stalled or slow peer).
 func (c *StreamConn) StallAB(on bool) { c.ab.mu.Lock(); c.ab.stalled = on; c.ab.mu.Unlock() }
